@@ -991,7 +991,7 @@ func evalDiv(args []ast.Constant) (int64, error) {
 		case 1:
 			return 1, nil
 		default:
-			return 0, nil // integer division 1 / arg[0]
+			return 1 / v, nil // integer division 1 / arg[0]
 		}
 	}
 	res, err := args[0].NumberValue()
